@@ -113,6 +113,11 @@ def cases_of(tier, s, L):
                 # windows, where bounds differ only in the third decimal, and kilosecond-sized ones
                 for sc in SCALES[tier]:
                     yield {"s": s * sc, "L": L * sc, "d": d * sc, "h": None if h is None else h * sc, "incl": incl, "scale": sc}
+                # millisecond windows far from the origin (offset 4096 s): bounds differ only beyond the sixth significant digit
+                sc = 2.0 ** -10
+                if L <= 2.0:
+                    yield {"s": 4096.0 + s * sc, "L": L * sc, "d": d * sc, "h": None if h is None else h * sc, "incl": incl,
+                           "scale": sc, "offset": 4096.0}
     for incl in (False, True):
         for d in bad:
             for h in [None] + durs + bad:
